@@ -307,7 +307,7 @@ def casadi_pairs(M, rec, rng, g, desc, pars, st, combo_list):
     for opts in combo_list:
         ctx = {"desc": desc, "pars": pars, "vals": vals, "opts": opts, "engine": st}
         try:
-            case = CC.CompileCase(M, rng, desc, pars, st, (), opts, ops=ops, own_symbols=(rng.random() < 0.5))
+            case = CC.CompileCase(M, rng, desc, pars, st, (), opts, ops=ops, own_symbols=(rng.random() < 0.5), named_scalars_prob=0.5)
             compact = rng.choice((0, 1, 2))
             F = case.compile(compact, False)
             if compact not in plain:
